@@ -101,7 +101,7 @@ def esrc(e, prec=0):
             h = len(es) // 2
             return "{" + ", ".join(f"{esrc(es[i])}: {esrc(es[h + i])}" for i in range(h)) + "}"
         if kk == 3:
-            return 'f"' + "".join("{" + esrc(a) + "}" for a in es) + '"'
+            return 'f"' + "".join("{ " + esrc(a) + " }" for a in es) + '"'
         if kk == 5:
             return '"s"'
         raise Unencodable(f"other kind {kk} outside a subscript")
@@ -158,7 +158,9 @@ def ssrc(s, ind):
     if k == "return":
         return pad + ("return\n" if s[1] is None else f"return {esrc(s[1])}\n")
     if k == "def":
-        return pad + f"def g() -> {'None' if s[2] else 'int'}:\n" + block_src(s[1], ind + 1)
+        # an empty body is printed as a docstring-only function (parse_function_with_docstring strips it)
+        body = block_src(s[1], ind + 1) if s[1] else "    " * (ind + 1) + '"""doc"""\n'
+        return pad + f"def g() -> {'None' if s[2] else 'int'}:\n" + body
     if k == "otherstmt":
         return "".join(pad + line + "\n" for line in OTHER_STMTS[s[1] % len(OTHER_STMTS)].split("\n"))
     raise Unencodable(k)
@@ -748,10 +750,13 @@ class Gen:
             return ("for", self.var(), e(), self.stmts(0, True, 1), [("pass",)])
         if k == "def":
             rn = r.random() < 0.5
+            if r.random() < 0.08:
+                self.note("def:docstring-only")
+                return ("def", [], rn)
             body = self.stmts(d - 1, False)
             if not rn and r.random() < 0.8:
                 body = body + [("return", e())]
-            return ("def", body, rn)
+            return ("def", strip_doc(body) or [("pass",)], rn)
         if k == "otherstmt":
             return ("otherstmt", r.randrange(len(OTHER_STMTS)))
         raise AssertionError(k)
@@ -793,8 +798,15 @@ def from_src_stmt(s):
         return ("pass",)
     if isinstance(s, ast.FunctionDef):
         rn = isinstance(s.returns, ast.Constant) and s.returns.value is None
-        return ("def", [from_src_stmt(x) for x in s.body], rn)
+        return ("def", strip_doc([from_src_stmt(x) for x in s.body]), rn)
     return ("otherstmt", type(s).__name__)
+
+
+def strip_doc(body):
+    """the real builder removes a leading string-constant expression statement of a nested function"""
+    if body and body[0] == ("expr", ("other", 5, [])):
+        return body[1:]
+    return body
 
 
 def norm(t):
